@@ -271,7 +271,7 @@ func setModelInt(m *MClaims, w wtarget, v uint64) {
 }
 
 // mutKinds applicable to a target.
-var c04Kinds = []string{"null", "undefined", "wrongtype", "outofwidth", "tagged", "indefinite", "longhead", "dupkey"}
+var c04Kinds = []string{"null", "undefined", "wrongtype", "outofwidth", "tagged", "indefinite", "longhead", "keylonghead", "dupkey"}
 
 // applyWireMut mutates root at target w. pick selects among alternatives
 // (pool index); it returns the description, or ok=false if not applicable.
@@ -407,6 +407,12 @@ func applyWireMut(p Prof, root *icbor.Node, m *MClaims, w wtarget, kind string, 
 		}
 		sl[1] = cur.WithHead(wd)
 		mu.Eff = effOpenSame
+	case "keylonghead":
+		// the KEY written with a longer-than-necessary head: the same map in
+		// the CBOR data model (for key 265: the token still declares its
+		// profile)
+		sl[0] = sl[0].WithHead([]int{2, 4, 8}[pick%3])
+		mu.Eff = effOpenSame
 	case "dupkey":
 		var parent *icbor.Node = root
 		if w.comp >= 0 {
@@ -511,6 +517,18 @@ func c04RawJudge(in c04In) (string, string) {
 		return fmt.Sprintf("DecodeAndValidateClaimsFromCBOR (%v) disagrees with DecodeClaimsFromCBOR+Validate", err), "bug"
 	}
 	accepted := err == nil
+	// a token that the (non-validating) decoder takes must have been taken
+	// as a token of the profile it declares, however key 265 and its value
+	// are spelt
+	if err2 == nil && !in.ProfileTouched && !accepted {
+		wantType := "*psatoken.P1Claims"
+		if Prof(in.Prof) == P2 {
+			wantType = "*psatoken.P2Claims"
+		}
+		if got := fmt.Sprintf("%T", c2); got != wantType {
+			return fmt.Sprintf("token declaring profile %s is decoded (and then judged) as %s", Prof(in.Prof), got), "bug"
+		}
+	}
 	if accepted && !in.ProfileTouched {
 		wantType := "*psatoken.P1Claims"
 		if Prof(in.Prof) == P2 {
@@ -744,7 +762,7 @@ func TestC04_Product(t *testing.T) {
 		if p == P2 {
 			in.ProfileTouched = m.Profile == nil || *m.Profile != P2Name
 			for _, mu := range muts {
-				if mu.Target == "265" {
+				if mu.Target == "265" && mu.Eff != effOpenSame {
 					in.ProfileTouched = true
 				}
 			}
@@ -787,6 +805,14 @@ func TestC04_Sweep(t *testing.T) {
 	defer st.Flush(t)
 	run := func(p Prof, m *MClaims, root *icbor.Node, muts []wmut, key string) {
 		in := c04In{Prof: int(p), Model: *m, Muts: muts, Tok: icbor.Encode(root), Open: m.NoMeas != nil && *m.NoMeas != 1}
+		if p == P2 {
+			in.ProfileTouched = m.Profile == nil || *m.Profile != P2Name
+			for _, mu := range muts {
+				if mu.Target == "265" && mu.Eff != effOpenSame {
+					in.ProfileTouched = true
+				}
+			}
+		}
 		msg, outcome := c04Judge(in, st)
 		st.Case(key, outcome, p.String())
 		if len(muts) > 0 && st.WantSample() && outcome != "rejected" {
@@ -833,7 +859,7 @@ func TestC04_Sweep(t *testing.T) {
 							break
 						}
 						run(p, m, root, []wmut{mu}, fmt.Sprintf("%s%s/%s#%d", pre, w, kind, pick))
-						if kind == "null" || kind == "undefined" || (kind == "indefinite" && pick >= 1) || (kind == "longhead" && pick >= 2) || (kind == "dupkey" && pick >= 4) || (kind == "tagged" && pick >= 8) {
+						if kind == "null" || kind == "undefined" || (kind == "indefinite" && pick >= 1) || ((kind == "longhead" || kind == "keylonghead") && pick >= 2) || (kind == "dupkey" && pick >= 4) || (kind == "tagged" && pick >= 8) {
 							break
 						}
 						if kind == "outofwidth" && pick+1 >= len(outOfWidth(w.ty)) {
